@@ -532,21 +532,26 @@ Section AMSetS.
          else base
      end).
 
-  (* MultiSetEdit.tighten_bounds(); the flag: the model's repeat_until_tightened ran out of fuel *)
+  (* MultiSetEdit.tighten_bounds() after the loop over the key-matched pairs found nothing to tighten; the flag: the model's
+     repeat_until_tightened ran out of fuel *)
+  Definition ams_tig_rest (fuel : nat) (s1 : mset X) : (mset X * bool) * bool :=
+    let r := arut amt_bounds amt_func fuel s1 in
+    let s2 := fst (fst r) in
+    if snd r then ((s2, true), false)
+    else if snd (fst r) then ((s2, false), true)
+    else match m_match s2 with
+         | Some _ => ((s2, false), false)
+         | None => let q0 := ams_bounds s2 in
+                   let q1 := ams_bounds (amt_force (fst q0)) in
+                   ((fst q1, false), tighter (snd q1) (snd q0))
+         end.
+
+  (* MultiSetEdit.tighten_bounds() *)
   Definition ams_tig (s : mset X) : (mset X * bool) * bool :=
     let p := first_true (k_tig C) (m_kvp s) in
     let s1 := with_kvp s (fst p) in
     if snd p then ((s1, false), true)
-    else let r := arut amt_bounds amt_func (S (S (S (amset_mu s1)))) s1 in
-         let s2 := fst (fst r) in
-         if snd r then ((s2, true), false)
-         else if snd (fst r) then ((s2, false), true)
-         else match m_match s2 with
-              | Some _ => ((s2, false), false)
-              | None => let q0 := ams_bounds s2 in
-                        let q1 := ams_bounds (amt_force (fst q0)) in
-                        ((fst q1, false), tighter (snd q1) (snd q0))
-              end.
+    else ams_tig_rest (S (S (S (amset_mu s1)))) s1.
 
   (* __init__ (initial_bounds = self.bounds()) *)
   Definition amset_init (kvp : list X) (edges : list (list X)) (rem ins : list Z) (cnt : list (list nat)) (asg : list (nat * nat))
@@ -1199,11 +1204,12 @@ Fixpoint initA (orc : oracle) (a b : tree) {struct a} : option ast :=
                       all_some_l (map (fun i => all_some_l (map (fun j => get i j) I)) R) with
                 | Some kv, Some edges =>
                     let ans := orc_lookup orc (map (fun i => nth i cs dummy) R) (map (fun j => nth j ds dummy) I) in
-                    let h := Nat.max (nat_max_list (map aheight kv))
-                                     (nat_max_list (map (fun row => nat_max_list (map aheight row)) edges)) in
+                    (* __init__ reads bounds() once (initial_bounds): on a fresh edit that read changes no sub-edit (their
+                       reads are pure) and only pre-computes the matcher's memo, which the first modelled read computes
+                       identically; it is not a separate step of the model *)
                     Some (AMSet (mk_midx exact pre R I)
-                                (amset_init (opsA true h) kv edges (map (fun i => remove_cost (nth i cs dummy) 1) R)
-                                            (map (fun j => insert_cost (nth j ds dummy) 1) I) (fst ans) (snd ans)) false)
+                                (mk_mset kv edges (map (fun i => remove_cost (nth i cs dummy) 1) R)
+                                         (map (fun j => insert_cost (nth j ds dummy) 1) I) false None None (fst ans) (snd ans)) false)
                 | _, _ => None
                 end
           | _ => None
